@@ -225,6 +225,7 @@ class Connection(BaseProtocol):
             CONNECTION_ERROR.labels(ident, 'no-sub-permission').inc()
             self.error(f'Authkey not allowed to sub here. ident={self.ak}, chan={chan}')
             self.transport.close()
+            return
         self.server.subscribe(self, chan)
 
     def on_unsubscribe(self, ident, chan):
